@@ -72,7 +72,11 @@ def scenario_tree(base: bytes, spec) -> str:
     cuwps = "(" + " ".join(f"({c[0]} {c[1]} {c[2]} {c[3]} {c[4]} {_bools(c[5])} {_bools(c[6])} {_bools(c[7])} {int(c[8])} {c[9]} {_opt(c[10])})"
                            for c in p["cuwps"]) + ")"
     sws = "(" + " ".join(f"({_rstr(s[0])} {_opt(s[1])})" for s in p["switches"]) + ")"
-    return f"(3 {T(base)} ({locs} {cuwps} {sws}) (" + " ".join(op_tree(o) for o in spec["ops"]) + "))"
+    ops = "(" + " ".join(op_tree(o) for o in spec["ops"]) + ")"
+    if spec.get("wav_meta") is not None:
+        wm = "(" + " ".join(f"({T(pth)} {d})" for pth, d in spec["wav_meta"]) + ")"
+        return f"(4 {T(base)} ({locs} {cuwps} {sws}) {ops} {wm})"
+    return f"(3 {T(base)} ({locs} {cuwps} {sws}) {ops})"
 
 
 # ---- spec -> real objects --------------------------------------------------------------------------------------------
@@ -240,8 +244,29 @@ def run_impl(base: bytes, spec):
             rich = SC.load(base)
             for op in spec["ops"]:
                 rich = b.apply(rich, op)
-            return list(SC.save(rich))
+            return list(SC.save(rich, spec.get("wav_meta")))
     return vlib.impl_result(f)
+
+
+def run_impl_with_base(base: bytes, spec):
+    """like run_impl, and afterwards the object the scenario STARTED from is saved again: (result, resave result)"""
+    kept = {}
+
+    def f():
+        with RC.forced_orders():
+            b = Builder(spec)
+            rich0 = SC.load(base)
+            kept["rich0"] = rich0
+            rich = rich0
+            for op in spec["ops"]:
+                rich = b.apply(rich, op)
+            return list(SC.save(rich, spec.get("wav_meta")))
+    r = vlib.impl_result(f)
+
+    def g():
+        with RC.forced_orders():
+            return list(SC.save(kept["rich0"]))
+    return r, (vlib.impl_result(g) if "rich0" in kept else [0, 97])
 
 
 # ---- generator ---------------------------------------------------------------------------------------------------------
@@ -357,6 +382,10 @@ def gen_scenario(rng: random.Random, base: bytes, kind="mixed"):
             ok = True
             for a, c, e, f in table[key]["args"]:
                 v = arg(c, e, f, widths)
+                if a == "_duration_ms":
+                    # Play WAV: no duration (taken from the WAV metadata at save time) or an explicit one, incl. 0 and
+                    # values shorter / longer than the file
+                    v = [11] if rng.random() < 0.35 else [0, rng.choice([0, 1, 1200, 2500, 2 ** 32 - 1])]
                 if v is None:
                     ok = False
                     break
@@ -402,7 +431,24 @@ def gen_scenario(rng: random.Random, base: bytes, kind="mixed"):
         ops.insert(rng.randrange(len(ops) + 1), ["add_triggers", [{"conds": [], "players": [0], "acts": [
             ["rich", 11, [["_group", [1, 0]], ["_amount", [0, 1]], ["_unit", [1, 0]], ["_location", [2, 0]],
                           ["_properties", [6, twin_index]]], [False] * 5]]}]])
-    return {"pool": pool, "ops": ops}
+    out = {"pool": pool, "ops": ops}
+    if inv["wavs"] and rng.random() < 0.6:
+        # the save is given WAV metadata (as StarCraftMpqIo.save_chk_to_mpq does): durations of most of the map's sounds
+        out["wav_meta"] = [[w, 2000 + 37 * i] for i, w in enumerate(sorted(set(inv["wavs"]))) if rng.random() < 0.85]
+        # ... and some authored Play WAV action relies on it (no explicit duration) while another overrides it
+        pw = next((k for k in sorted(spec["actions"]) if any(a == "_duration_ms" for a, _, _, _ in spec["actions"][k]["args"])), None)
+        if pw is not None and out["wav_meta"]:
+            acts = []
+            for dur in ([11], [0, 0], [0, 1200], [0, 2 ** 32 - 1]):
+                w = rng.choice(out["wav_meta"])[0]
+                args = []
+                for a, c, e, f in spec["actions"][pw]["args"]:
+                    args.append([a, dur if a == "_duration_ms" else ([12, w] if c == "strvalue" else arg(c, e, f, SC.ACTION_W))])
+                if all(v is not None for _, v in args):
+                    acts.append(["rich", pw, args, [False] * 5])
+            if acts:
+                ops.insert(rng.randrange(len(ops) + 1), ["add_triggers", [{"conds": [], "players": [0], "acts": acts}]])
+    return out
 
 
 _UW = None
